@@ -196,10 +196,13 @@ Definition assocList (l : list N) (raw : index) (v : N) : res value :=
     else Ok (VList (list_set l (Z.to_nat lo) v))).
 
 (* ---- strings ---- *)
+(* a decoding failure is (RuneError, 1); a validly encoded U+FFFD is (RuneError, 3) *)
+Definition decode_failed (d : N * nat) : bool := (fst d =? RuneError)%N && Nat.eqb (snd d) 1.
+
 Definition startsWithRuneBoundary (s : bytes) : bool :=
   match s with
   | [] => true
-  | _ => negb (fst (decode_rune s) =? RuneError)%N
+  | _ => negb (decode_failed (decode_rune s))
   end.
 
 (* utf8.DecodeLastRuneInString's backward scan.  [rest] = the bytes before the
@@ -216,21 +219,21 @@ Fixpoint scan_back (k : nat) (rest acc : bytes) : bytes :=
     end
   end.
 
-(* the rune returned by utf8.DecodeLastRuneInString *)
-Definition decode_last (s : bytes) : N :=
+(* utf8.DecodeLastRuneInString: (rune, size) *)
+Definition decode_last (s : bytes) : N * nat :=
   match rev s with
-  | [] => RuneError
+  | [] => (RuneError, 0%nat)
   | l :: rest =>
-    if (l <? RuneSelf)%N then l
+    if (l <? RuneSelf)%N then (l, 1%nat)
     else let t := scan_back 3 rest [l] in
          let '(r, w) := decode_rune t in
-         if Nat.eqb w (length t) then r else RuneError       (* start+size != end *)
+         if Nat.eqb w (length t) then (r, w) else (RuneError, 1%nat)   (* start+size != end *)
   end.
 
 Definition endsWithRuneBoundary (s : bytes) : bool :=
   match s with
   | [] => true
-  | _ => negb (decode_last s =? RuneError)%N
+  | _ => negb (decode_failed (decode_last s))
   end.
 
 Definition convertStringIndex (raw : index) (s : bytes) : res (Z * Z) :=
@@ -239,8 +242,8 @@ Definition convertStringIndex (raw : index) (s : bytes) : res (Z * Z) :=
       if startsWithRuneBoundary (skipn (Z.to_nat lo) s) && endsWithRuneBoundary (firstn (Z.to_nat hi) s)
       then Ok (lo, hi) else Err ENotBoundary
     else
-      let '(r, size) := decode_rune (skipn (Z.to_nat lo) s) in
-      if (r =? RuneError)%N then Err ENotBoundary else Ok (lo, lo + Z.of_nat size)).
+      let d := decode_rune (skipn (Z.to_nat lo) s) in
+      if decode_failed d then Err ENotBoundary else Ok (lo, lo + Z.of_nat (snd d))).
 
 Definition indexString (s : bytes) (raw : index) : res value :=
   bind (convertStringIndex raw s) (fun '(i, j) => Ok (VStr (sub_list s i j))).
